@@ -37,7 +37,7 @@ func TestMain(m *testing.M) {
 	run = vk.Start("C09", "exploration")
 	const run0Rule = "per (entry point, protocol state) an input stream indexed by i: first the small-scope systematic mutants of every well-formed sample built with the repo's own serialisers (truncation at every byte; every interesting 8/16-bit value in each of the first 12 bytes), then seeded mutants (bit flips, length-field tampering, truncation, duplication, splicing, random bytes; 0..2048 bytes); stateful handlers get samples that follow their current state (live session ids, last identifier, valid authenticator). non-trivial = distinct input that got past the entry point's framing (call returned nil / produced a reply or a state change / parser returned a non-empty result)"
 	run.Assume("wall-clock is used only by the 10 s per-input hang watchdog (a firing is a candidate, confirmed only if it reproduces in a fresh process) and by the scaling probe, which reads the process CPU clock instead (min of 9 repetitions at n,2n,4n bytes with the collector off; flagged only if both doublings cost >= 6x and the largest run takes >= 200us of CPU, and only if a second probe in a fresh process flags it again)")
-	run.Rule(run0Rule + " || second pass (TestStatefulHammer, entries gated:*): per (gated handler, state) the real object is driven into the state by the legitimate sequence of calls/packets, the identifiers it then expects (Configure-Request identifier and options, CHAP Challenge identifier, session id and station address, offered address and server identifier, leased IPv6 address / prefix and server DUID) are read from the packets it emitted, and it gets input i of a stream: first the shuffled small-scope list of structure-aware hostile packets that carry those identifiers (every code; every option with every value length 0..len+2, every dishonest option length, repeated options, the option list cut at every byte, packet length field short/long/zero, up to the size bound; nested option lists one level deep), then seeded structural mutants (1-3 of: short/long/empty value, lying length, cut, repeat, max-size, drop, swap, unknown type, nested damage) and byte-level mutants of valid packets; 15% of the seeded packets get a neighbouring/random identifier. After each input a legitimate exchange is delivered to the same object (must not panic or hang). gate-passed = the handler emitted a packet, changed state / lease / session table, or returned an error from beyond the framing check; gate-rejected = no observable effect; framing-rejected = refused by the length/header check (or the wire parser) in front of the handler. non-trivial = distinct gate-passed input || third pass (entries exhausted:*, same test): per (stateful handler, exhausted / unusual server state) every case builds a fresh server whose pool or table is completely in use by the legitimate exchanges of a handful of clients (DHCPv6 legacy /126 address + /62 prefix pool, address pool only, integrated allocator /127 + /62, allocation store that refuses writes; DHCPv4 /29 pool with a two-block NAT range: every address leased / only offered / declined / lapsed-unswept; PPPoE /30 client pool, session id counter about to wrap, thorough: all 65 535 session ids taken; RADIUS CoA back ends failing / no session table / no handlers; HA standby whose store refuses writes / holds 1000 stale sessions), the lapsed-unswept states by the smallest configurable lifetimes (1 s, 40 ms) and a real wait, optionally with one client renewed so that only some leases have lapsed (the sub-state met at delivery is read from the lease table and counted), and delivers input i of a stream: first the matrix of every well-formed client message type x client role (holds a binding / holds a prefix only / relayed / newcomer) x reference (own, another client's, no address; Rapid-Commit; with and without relay agent), then a prefix of the shuffled systematic hostile list of the second pass and its seeded mutants, resolved for one of the roles (explicit placeholder or a hash of the input, so that a witness fed alone meets the same client); then a legitimate follow-up on the same server (newcomer asks, holder renews, holder releases, newcomer asks again, sweep). Counters exh_<protocol>/<state>/<event> say which exhaustion paths were observed from the replies (NoAddrsAvail, NoPrefixAvail, address granted to a client that held none = reclaim on exhaustion, DISCOVER unanswered, authenticated without address, session id found behind the wrap, NAK from failing back ends ...)")
+	run.Rule(run0Rule + " || second pass (TestStatefulHammer, entries gated:*): per (gated handler, state) the real object is driven into the state by the legitimate sequence of calls/packets, the identifiers it then expects (Configure-Request identifier and options, CHAP Challenge identifier, session id and station address, offered address and server identifier, leased IPv6 address / prefix and server DUID) are read from the packets it emitted, and it gets input i of a stream: first the shuffled small-scope list of structure-aware hostile packets that carry those identifiers (every code; every option with every value length 0..len+2, every dishonest option length, repeated options, the option list cut at every byte, packet length field short/long/zero, up to the size bound; nested option lists one level deep), then seeded structural mutants (1-3 of: short/long/empty value, lying length, cut, repeat, max-size, drop, swap, unknown type, nested damage) and byte-level mutants of valid packets; 15% of the seeded packets get a neighbouring/random identifier. After each input a legitimate exchange is delivered to the same object (must not panic or hang). gate-passed = the handler emitted a packet, changed state / lease / session table, or returned an error from beyond the framing check; gate-rejected = no observable effect; framing-rejected = refused by the length/header check (or the wire parser) in front of the handler. non-trivial = distinct gate-passed input || third pass (entries exhausted:*, same test): per (stateful handler, exhausted / unusual server state) every case builds a fresh server whose pool or table is completely in use by the legitimate exchanges of a handful of clients (DHCPv6 legacy /126 address + /62 prefix pool, address pool only, integrated allocator /127 + /62, allocation store that refuses writes; DHCPv4 /29 pool with a two-block NAT range: every address leased / only offered / declined / lapsed-unswept; PPPoE /30 client pool, session id counter about to wrap, all 65 535 session ids taken (one short chunk in the quick tier); RADIUS CoA back ends failing / no session table / no handlers; HA standby whose store refuses writes / holds 1000 stale sessions), the lapsed-unswept states by the smallest configurable lifetimes (1 s, 40 ms) and a real wait, optionally with one client renewed so that only some leases have lapsed (the sub-state met at delivery is read from the lease table and counted), and delivers input i of a stream: first the matrix of every well-formed client message type x client role (holds a binding / holds a prefix only / relayed / newcomer) x reference (own, another client's, no address; Rapid-Commit; with and without relay agent), then a prefix of the shuffled systematic hostile list of the second pass and its seeded mutants, resolved for one of the roles (explicit placeholder or a hash of the input, so that a witness fed alone meets the same client); then a legitimate follow-up on the same server (newcomer asks, holder renews, holder releases, newcomer asks again, sweep). Counters exh_<protocol>/<state>/<event> say which exhaustion paths were observed from the replies (NoAddrsAvail, NoPrefixAvail, address granted to a client that held none = reclaim on exhaustion, DISCOVER unanswered, authenticated without address, session id found behind the wrap, NAK from failing back ends ...)")
 	run.Assume("a panic is attributed to bng when the innermost non-runtime, non-stdlib, non-third-party frame of its stack is a bng function; panics raised inside the harness or inside third-party parsers called by the harness are reported as observations, not violations")
 	code := m.Run()
 	ec := run.Finish()
@@ -418,9 +418,15 @@ func hammer(t *testing.T, es []*entry, pfx string) {
 		}
 	}
 	// long chunks first
-	sort.SliceStable(jobs, func(i, j int) bool {
-		return jobs[i].e.cost*(jobs[i].to-jobs[i].from) > jobs[j].e.cost*(jobs[j].to-jobs[j].from)
-	})
+	jobCost := func(jb job) int {
+		if jb.e.stateCost != nil {
+			if c := jb.e.stateCost(jb.state); c > 0 {
+				return c
+			}
+		}
+		return jb.e.cost * (jb.to - jb.from)
+	}
+	sort.SliceStable(jobs, func(i, j int) bool { return jobCost(jobs[i]) > jobCost(jobs[j]) })
 
 	workers := runtime.NumCPU()
 	if workers > 16 {
